@@ -1,7 +1,7 @@
 """C07 - getProperties is answered with exactly the definitions asked for.
 
 Explicit-state model checking over generated deployments: for every deployment of the family
-the driver states reachable by histories of depth <= 2 (thorough 3) over the driver-side
+the driver states reachable by histories of depth <= 3 (thorough 4) over the driver-side
 alphabet (value / state / vector, group and element enabling / BLOB set and unset) are
 enumerated (merged by the complete truth snapshot); in EVERY state every request
 (device in {each device, none, unknown} x name in {none, each vector, unknown}) is routed and
@@ -249,7 +249,7 @@ def reqclass(device, name):
 def run_shard(shard):
     tier, i = shard
     p = DP.family(tier)[i]
-    depth = 2 if tier == "quick" else 3
+    depth = 3 if tier == "quick" else 4
     res = {"states": 0, "transitions": 0, "violations": [], "samples": [], "counters": {}}
     sig = {}
 
